@@ -214,23 +214,28 @@ fn gen_str(r: &mut Rng, k: &Knobs, utf8: bool) -> Vec<u8> {
         // valid UTF-8 for the `String`-typed fields: ASCII, or (one string in three) characters of
         // two, three and four bytes throughout, so that any byte offset is likely to fall inside one
         if r.chance(1, 3) {
-            const CHARS: [&str; 6] = ["\u{e9}", "\u{4e2d}", "\u{1f600}", "\u{3b1}", "\u{20ac}", "x"];
-            let mut out: Vec<u8> = Vec::with_capacity(n);
-            while out.len() < n {
-                let c = CHARS[r.below(CHARS.len() as u64) as usize].as_bytes();
-                if out.len() + c.len() <= n {
-                    out.extend_from_slice(c);
-                } else {
-                    out.push(b'a' + (r.below(26) as u8));
-                }
-            }
-            out
+            multibyte_text(r, n)
         } else {
             (0..n).map(|_| b'a' + (r.below(26) as u8)).collect()
         }
     } else {
         r.bytes(n)
     }
+}
+
+/// `n` bytes of valid UTF-8 made of characters of one to four bytes in no particular pattern.
+pub fn multibyte_text(r: &mut Rng, n: usize) -> Vec<u8> {
+    const CHARS: [&str; 6] = ["\u{e9}", "\u{4e2d}", "\u{1f600}", "\u{3b1}", "\u{20ac}", "x"];
+    let mut out: Vec<u8> = Vec::with_capacity(n);
+    while out.len() < n {
+        let c = CHARS[r.below(CHARS.len() as u64) as usize].as_bytes();
+        if out.len() + c.len() <= n {
+            out.extend_from_slice(c);
+        } else {
+            out.push(b'a' + (r.below(26) as u8));
+        }
+    }
+    out
 }
 
 fn gen_double(r: &mut Rng) -> u64 {
